@@ -61,7 +61,7 @@ def decode_simplex(fdp):
             e = 0.0 if fdp.ConsumeBool() else 10.0 ** (-fdp.ConsumeIntInRange(6, 16))
             p = [a[c] + t * (b[c] - a[c]) + e * fdp.ConsumeFloatInRange(-1.0, 1.0) for c in range(3)]
         pts.append(p)
-    pts = [[0.0 if abs(x * scale) < 1e-100 else x * scale for x in p] for p in pts]
+    pts = [[0.0 if abs(x * scale) < 1e-30 else x * scale for x in p] for p in pts]
     return {"points": pts}
 
 
